@@ -74,7 +74,7 @@ pub fn draw_params<W: World>(w: &W, n: usize, rng: &mut Rng) -> RunParams {
     let max_proofs = p.range(batch as u64, 8) as usize;
     // whole and fractional seconds, sub-second, and one nanosecond off a whole second: a limit
     // handled in truncated units (seconds, milliseconds) behaves differently only on the latter
-    let window_ns = *p.pick(&[1 * S, 5 * S, 60 * S, 900 * MS, 3900 * MS, 250 * MS, S + 1, 2 * S - 1, 59_999 * MS + 999_999]);
+    let window_ns = *p.pick(&[1 * S, 5 * S, 60 * S, 900 * MS, 3900 * MS, 250 * MS, S + 1, 2 * S - 1, 59_999 * MS + 999_999, 900 * MS + 500_000, MS + 1, 1_500 * MS + 1]);
     let pool = PoolParams {
         n,
         batch,
